@@ -41,7 +41,7 @@ Verdicts(i) ==
       s == r.sc
       e == Expect(s)
       plan == PlanOf(s)
-      base == [i |-> i, class |-> e.class, rc |-> plan.rc, last |-> plan.last]
+      base == [i |-> i, class |-> e.class, rc |-> plan.rc, last |-> plan.last, inter |-> plan.inter]
   IN IF ~(SameSeq(Argv(s), r.argv) /\ StdinText(s) = r.stdin /\ ScriptText(s) = r.script)
      THEN {base @@ [v |-> "render", mode |-> "", field |-> "", pos |-> 0, exp |-> "", got |-> ""]}
      ELSE UNION { LET run == r.runs[k]
